@@ -22,11 +22,13 @@ chx_hash.install()          # builtin hash() without CrossHair's short-circuit f
 _SV = SidecarValidator(MINI)
 _SV0 = SidecarValidator(NOSCHEMA)
 
-_HARDWIRE_KNOWN = True      # while developing: exclusions active without known_findings.json
+_HARDWIRE_KNOWN = False     # while developing: exclusions active without known_findings.json
 
 
 def _active(fid):
-    return True if _HARDWIRE_KNOWN else R.known_active(fid)
+    if _HARDWIRE_KNOWN or fid in os.environ.get("VP_C08_ASSUME_KNOWN", "").split(","):
+        return True
+    return R.known_active(fid)
 
 
 # ------------------------------------------------------------------ JSON values from shape selectors
@@ -157,6 +159,25 @@ def _doc(top, name_hed, name, e, k1_hed, v, k2_na, w, key, s, i, early=()):
         return None, False
 
 
+def _concrete(doc):
+    """Realise the string of every value column, i.e. a string stored directly under "HED" (under CrossHair
+    only; identity when replayed concretely).  Such a string reaches `pd.Series(text, dtype=str)`; pandas' C
+    type checks do not take CrossHair's symbolic string for a `str` and would build one row per character --
+    an artefact of the engine, not behaviour of hed-python.  (Strings inside a category map are converted by
+    pandas itself.)  The realised strings are enumerated by the solver over their stated alphabet."""
+    from crosshair.tracers import is_tracing
+    if not is_tracing() or not isinstance(doc, dict):
+        return doc
+    from crosshair.core import realize
+    out = {}
+    for k in doc:
+        entry = doc[k]
+        if isinstance(entry, dict) and "HED" in entry and isinstance(entry["HED"], str):
+            entry = {k2: (realize(entry[k2]) if k2 == "HED" else entry[k2]) for k2 in entry}
+        out[k] = entry
+    return out
+
+
 def _kinds(**kw):
     return dict(kw)
 
@@ -278,7 +299,7 @@ def total_doc(top: int, name_hed: bool, name: str, e: int, k1_hed: bool, v: int,
     pre: _admissible(top, name_hed, name, e, k1_hed, v, k2_na, w, key, s, i)
     post: _
     """
-    doc, _ = _doc(top, name_hed, name, e, k1_hed, v, k2_na, w, key, s, i)
+    doc = _concrete(_doc(top, name_hed, name, e, k1_hed, v, k2_na, w, key, s, i)[0])
     sc = sidecar_stub.load(doc)
     issues = sc.validate(MINI)
     if not isinstance(issues, list):
@@ -391,8 +412,16 @@ def _ref_pre(ka, s, pound, kb, r):
     t = R.env_int("VP_KB")
     if t is not None and kb != t:
         return False
+    ok = False
+    for ch in os.environ.get("VP_KBSET", "012345"):
+        if kb == int(ch):
+            ok = True
+    if not ok:
+        return False
     if not (len(s) <= R.N(3) and R.scell(s, "{}ab") and R.over(s, os.environ.get("VP_SALPHA", "{}ab"))):
         return False
+    if os.environ.get("VP_POUND") == "tie" and pound != (ka == 0):
+        return False       # quick tier: '#' appended exactly where the '#' rule wants it
     if kb == 3 or kb == 5:
         if not (len(r) == 1 and R.over(r, "ab")):
             return False
@@ -407,7 +436,7 @@ def ref_rules(ka: int, s: str, pound: bool, kb: int, r: str) -> bool:
     pre: _ref_pre(ka, s, pound, kb, r)
     post: _
     """
-    doc = _two(ka, s, pound, kb, r if (kb == 3 or kb == 5) else "a")
+    doc = _concrete(_two(ka, s, pound, kb, r if (kb == 3 or kb == 5) else "a"))
     sc = sidecar_stub.load(doc)
     eh = ErrorHandler()
     issues = _SV.validate_structure(sc, eh)
@@ -479,52 +508,55 @@ _REAL = ("strings that reach pandas (ColumnMetadata.get_hed_strings builds a pd.
          "those arguments are enumerated by the solver over the stated alphabet, not kept symbolic")
 
 
-def _total_cells(n_val, kmax):
+def _total_cells(n_val, kmax, kalpha):
     """disjoint cover of the documents of total_doc; every cell keeps at least one document outside every
-    known-finding class (so it is not vacuous while exclusions are active)."""
+    known-finding class (so it is not vacuous while exclusions are active).  Cells whose strings are looked
+    at by the validator (value column string, category strings) always use column names / keys over "ab" so
+    that references to the own column, to another name and to no column all occur; the other cells use
+    `kalpha`."""
     K = "0123456789"[:kmax + 1]
     cont = "".join(c for c in "689" if c in K)
+    ab = {"VP_KALPHA": "ab"}
+    ka = {"VP_KALPHA": kalpha}
     cells = [
         # not an object, the empty object, and objects whose single entry is not an object or is {}
-        _kinds(VP_KTOP="01234567"),
-        _kinds(VP_KTOP="8", VP_KE="01234567"),
+        dict(ka, VP_KTOP="01234567", VP_KE=K, VP_KW=K),
+        dict(ka, VP_KTOP="8", VP_KE="01234567", VP_KV=K, VP_KW=K),
         # {name: {k: V}}: V scalar / empty container
-        _kinds(VP_KTOP="8", VP_KE="8", VP_KV="012357"),
+        dict(ka, VP_KTOP="8", VP_KE="8", VP_KV="012357"),
         # V = [W]
-        _kinds(VP_KTOP="8", VP_KE="8", VP_KV="6"),
+        dict(ka, VP_KTOP="8", VP_KE="8", VP_KV="6", VP_KW=K),
     ]
     # V = string (value column when k == "HED"): by length and first character, up to n_val characters
-    for c in R.str_cells(n_val, split1_from=3, nclass=5):
-        cells.append(dict(_kinds(VP_KTOP="8", VP_KE="8", VP_KV="4"), VP_N=n_val, **c))
+    for c in R.str_cells(n_val, split1_from=3, nclass=4):
+        cells.append(dict(ab, VP_KTOP="8", VP_KE="8", VP_KV="4", VP_N=n_val, **c))
     # V = {k2: W} (categorical column when k == "HED"); W scalar-ish / string / container of string
     for kv in [c for c in "89" if c in K]:
-        cells.append(_kinds(VP_KTOP="8", VP_KE="8", VP_KV=kv, VP_KW="012357"))
-        for c in R.str_cells(2, nclass=5):
-            cells.append(dict(_kinds(VP_KTOP="8", VP_KE="8", VP_KV=kv, VP_KW="4"), **c))
-        cells.append(_kinds(VP_KTOP="8", VP_KE="8", VP_KV=kv, VP_KW=cont))
+        cells.append(dict(ka, VP_KTOP="8", VP_KE="8", VP_KV=kv, VP_KW="012357"))
+        for c in R.str_cells(2, split1_from=2, nclass=4):
+            cells.append(dict(ab, VP_KTOP="8", VP_KE="8", VP_KV=kv, VP_KW="4", **c))
+        cells.append(dict(ka, VP_KTOP="8", VP_KE="8", VP_KV=kv, VP_KW=cont))
     if kmax >= 9:
         # two-key entries {k: V, "z": V} and two-column documents {name: E, "z": E}
-        cells.append(_kinds(VP_KTOP="8", VP_KE="9", VP_KV="01235679"))
-        for c in R.str_cells(2, nclass=5):
-            cells.append(dict(_kinds(VP_KTOP="8", VP_KE="9", VP_KV="4"), **c))
-        cells.append(_kinds(VP_KTOP="8", VP_KE="9", VP_KV="8", VP_KW="012357" + cont))
-        for c in R.str_cells(2, nclass=5):
-            cells.append(dict(_kinds(VP_KTOP="8", VP_KE="9", VP_KV="8", VP_KW="4"), **c))
-        cells.append(_kinds(VP_KTOP="9", VP_KE="01234567"))
-        cells.append(_kinds(VP_KTOP="9", VP_KE="89", VP_KV="01235679"))
-        for c in R.str_cells(2, nclass=5):
-            cells.append(dict(_kinds(VP_KTOP="9", VP_KE="89", VP_KV="4"), **c))
-        cells.append(_kinds(VP_KTOP="9", VP_KE="89", VP_KV="8", VP_KW="012357" + cont))
-        for c in R.str_cells(2, nclass=5):
-            cells.append(dict(_kinds(VP_KTOP="9", VP_KE="89", VP_KV="8", VP_KW="4"), **c))
+        for top, es in (("8", "9"), ("9", "89")):
+            if top == "9":
+                cells.append(dict(ka, VP_KTOP="9", VP_KE="01234567"))
+            cells.append(dict(ka, VP_KTOP=top, VP_KE=es, VP_KV="0123567"))
+            for c in R.str_cells(n_val, split1_from=2, nclass=4):
+                cells.append(dict(ab, VP_KTOP=top, VP_KE=es, VP_KV="4", VP_N=n_val, **c))
+            for kv in "89":
+                cells.append(dict(ka, VP_KTOP=top, VP_KE=es, VP_KV=kv, VP_KW="012357" + cont))
+                for c in R.str_cells(2, split1_from=2, nclass=4):
+                    cells.append(dict(ab, VP_KTOP=top, VP_KE=es, VP_KV=kv, VP_KW="4", **c))
     return cells
 
 
-def _struct_cells(two_columns):
+def _struct_cells(full):
+    """full: also two-key entries {k: V, "z": V} and two-column documents {name: E, "z": E}"""
     cells = []
-    for top in (["8", "9"] if two_columns else ["8"]):
+    for top in (["8", "9"] if full else ["8"]):
         cells.append(_kinds(VP_KTOP=top, VP_KE="01234567"))
-        for e in "89":
+        for e in ("89" if full else "8"):
             cells.append(_kinds(VP_KTOP=top, VP_KE=e, VP_KV="01234567"))
             for v in "89":
                 cells.append(_kinds(VP_KTOP=top, VP_KE=e, VP_KV=v, VP_KW="0123457"))
@@ -534,11 +566,11 @@ def _struct_cells(two_columns):
 
 HARNESSES = [
     R.H("total_doc", _T_TOTAL,
-        quick=R.tier(cells=_total_cells(3, 8), env={"VP_N": 2, "VP_M": 1}, timeout=170,
+        quick=R.tier(cells=_total_cells(3, 8, "a"), env={"VP_N": 2, "VP_M": 1}, timeout=300,
                      bound="every JSON document to depth 3 with containers of <= 1 item: strings <= 2 chars over "
                            "'{}a#' (<= 3 chars for the HED string of a value column), numbers -1..1, keys in "
                            "{HED, n/a, '', a, b}, column name in {HED, a, b}"),
-        thorough=R.tier(cells=_total_cells(3, 9), env={"VP_N": 2, "VP_M": 1}, timeout=1100, path_timeout=60,
+        thorough=R.tier(cells=_total_cells(3, 9, "ab"), env={"VP_N": 2, "VP_M": 1}, timeout=1100, path_timeout=60,
                         bound="as quick plus two-key objects {k: x, 'z': x} at the entry and category level and "
                               "two-column documents {name: E, 'z': E}"),
         what="Sidecar(<decoded document>).validate(schema) returns a list of issue dictionaries for every "
@@ -552,11 +584,12 @@ HARNESSES = [
     R.H("structure_rules", _T_LOAD + _T_STRUCT,
         quick=R.tier(cells=_struct_cells(False), env={"VP_N": 3, "VP_M": 1, "VP_SALPHA": "any", "VP_KALPHA": "a"},
                      timeout=170,
-                     bound="every one-column object to depth 3 (two-key objects included), strings: any "
-                           "Unicode text <= 3 chars, keys in {HED, n/a, '', a, z, q}, column name in {HED, a}"),
+                     bound="every one-column object to depth 3 (two-key objects below the entry level included), "
+                           "strings: any Unicode text <= 3 chars, keys in {HED, n/a, '', a, z, q}, column name in "
+                           "{HED, a}"),
         thorough=R.tier(cells=_struct_cells(True), env={"VP_N": 5, "VP_M": 2, "VP_SALPHA": "any"}, timeout=1100,
-                        bound="as quick plus two-column objects {name: E, 'z': E}, strings <= 5 chars, keys and "
-                              "column names over 'ab' (names <= 2 chars)"),
+                        bound="as quick plus two-key entries {k: V, 'z': V} and two-column objects {name: E, 'z': E}, "
+                              "strings <= 5 chars, keys and column names over 'ab' (names <= 2 chars)"),
         what="validate_structure never raises and reports: no structure code when every structure rule holds; "
              "the rule's code (error severity) when exactly one structure rule is broken",
         oracle="models/sidecar_ref.py structure_faults / CODES",
@@ -574,15 +607,16 @@ HARNESSES = [
              "return the entry's own objects",
         oracle="models/sidecar_ref.py kind()", stubs=[], outside="non-object entries in hed_dict (known finding)"),
     R.H("ref_rules", _T_LOAD + _T_REFS + [_SVN + "validate_structure"],
-        quick=R.tier(cells=R.product_cells(R.int_cells("VP_KA", 0, 2), R.str_cells(3, nclass=5)),
-                     env={"VP_N": 3}, timeout=170,
-                     bound="column a = value / 1 category / 2 categories with text s (<= 3 chars over '{}ab', "
-                           "optionally followed by '#'), column b in {absent, {}, value 'a#', value '{r}#', "
-                           "category 'a', category '{r}'} with r in {a, b}"),
+        quick=R.tier(cells=R.product_cells(R.int_cells("VP_KA", 0, 1), R.str_cells(3, split1_from=3, nclass=4)),
+                     env={"VP_N": 3, "VP_KBSET": "0235", "VP_POUND": "tie"}, timeout=300,
+                     bound="column a = value with text s+'#' / 1 category with text s (s <= 3 chars over '{}ab'), "
+                           "column b in {absent, value 'a#', value '{r}#', category '{r}'} "
+                           "with r in {a, b}"),
         thorough=R.tier(cells=R.product_cells(R.int_cells("VP_KA", 0, 2), R.int_cells("VP_KB", 0, 5),
                                               R.str_cells(4, split1_from=3, nclass=5)),
                         env={"VP_N": 4, "VP_SALPHA": "{}ab#"}, timeout=1100,
-                        bound="as quick with s <= 4 chars over '{}ab#'"),
+                        bound="as quick with s <= 4 chars over '{}ab#', '#' appended or not for every kind of column a, "
+                              "column a also with 2 categories, column b also {} (no HED) and category 'a'"),
         what="validate_structure + _validate_refs (validate()'s early-exit result) never raise; no "
              "SIDECAR_BRACES_INVALID when every reference rule holds; SIDECAR_BRACES_INVALID with error severity "
              "when a reference rule (balance/nesting, unknown column, self reference, nested reference) is the "
